@@ -76,6 +76,8 @@ pub fn gen_case(rng: &mut Rng, thorough: bool) -> J {
             Err(e) => { op["mutPanic"] = json!(panic_msg(e)); ops.push(op); break; }
         };
         op["mut"] = enc_value(&out.0);
+        // the controller writes every new individual as JSON before it is evaluated
+        if let Err(e) = catch_unwind(AssertUnwindSafe(|| out.to_json())) { op["jsonPanic"] = json!(panic_msg(e)); }
         // values in nested resizable maps grow with every operation at probability 1: stop a sequence whose
         // operations have become very large (the trace line is bounded, nothing is hidden: the ops so far are checked)
         let big = op.to_string().len() > 150_000;
